@@ -32,6 +32,8 @@ RULE = ("exhaustive over scenarios (harness/c01.py: 31 native sets x AirPlay vid
 ASSUMPTIONS = [
     "SetupData.connect/close are replaced by coroutines answering True/False; interface and Features instances are the real "
     "ones from the real set-up loop of pyatv.connect; the connected set is the set of protocols whose connect answered True",
+    "the features interface is read in every public way: get_feature, all_features() with and without include_unsupported, "
+    "in_state(every state but Unsupported); each must satisfy 'reported other than Unsupported => implemented'",
     "'the member does not fail merely because nothing implements it' is evaluated as: Relayer.relay(member) returns an "
     "instance attribute instead of raising NotSupportedError, and invoking the member through the device object (recorders "
     "in place of the implementations) with default-style arguments and with every other value of its enum-typed / "
@@ -214,6 +216,27 @@ def run(ctx, only=None, before=None, ops=None):
             where = tag and f" [{tag}]"
             base_case = dict({"scenario": sc, "holder": holder}, **(extra or {}))
             reported, backed, amap, todo = {}, {}, {}, []
+            # every public way of reading the features interface
+            ways = {}
+            for way, read in (("all_features()", lambda: world.atv.features.all_features()),
+                              ("all_features(include_unsupported=True)", lambda: world.atv.features.all_features(include_unsupported=True))):
+                try:
+                    got = read()
+                    ways[way] = {f.name: (got[f].state.name if f in got else "Unsupported") for f in feats}
+                    extra_names = [k for k in got if k not in feats]
+                    if extra_names or (way.endswith("True)") and len(got) != len(feats)):
+                        ctx.disagree(dict(base_case, way=way), sorted(getattr(k, "name", str(k)) for k in got)[:80],
+                                     "one entry per feature name", where="all_features keys")
+                except Exception as e:
+                    ways[way] = {f.name: "err:" + type(e).__name__ for f in feats}
+            not_unsupported = [s_ for s_ in FeatureState if s_ != FeatureState.Unsupported]
+            ways["in_state(any state but Unsupported)"] = {}
+            for f in feats:
+                try:
+                    ways["in_state(any state but Unsupported)"][f.name] = (
+                        "reported" if world.atv.features.in_state(not_unsupported, f) else "Unsupported")
+                except Exception as e:
+                    ways["in_state(any state but Unsupported)"][f.name] = "err:" + type(e).__name__
             for f in feats:
                 try:
                     state = world.atv.features.get_feature(f).state.name
@@ -239,6 +262,17 @@ def run(ctx, only=None, before=None, ops=None):
                              f"connected {'+'.join(S)} ({key}, takeover holder {holder or 'none'}){where} reports {f.name}={state} "
                              f"(answered by {amap[f.name]}) but no connected protocol implements "
                              f"{', '.join('%s.%s' % m for m in members) or '(no member)'}")
+                for way, answers in ways.items():
+                    told = answers[f.name]
+                    ctx.note("read:" + way)
+                    if told != "Unsupported" and not told.startswith("err:") and not ok:
+                        ctx.fail(f"{tag or 'connect'}:{key}:{holder or '-'}:{f.name}:{way}",
+                                 dict(base_case, feature=f.name, way=way),
+                                 f"{way} -> {told}; members {members}: all NotSupportedError",
+                                 "some member the feature stands for is routed to an implementation",
+                                 f"connected {'+'.join(S)} ({key}, takeover holder {holder or 'none'}){where}: features.{way} reports "
+                                 f"{f.name}={told} but no connected protocol implements "
+                                 f"{', '.join('%s.%s' % m for m in members) or '(no member)'}")
                 if nontrivial:
                     for (i, m) in ok:
                         if i in h01.NINE:
@@ -272,6 +306,8 @@ def run(ctx, only=None, before=None, ops=None):
                          f"and a connected protocol implements {i}.{m}, but {call} through the device object "
                          f"fails with NotSupportedError")
             obs.append((sc, S, video, holder, reported, backed, amap))
+            for way in list(ways)[:2]:          # all_features must tell what the model's get_feature tells
+                obs.append((dict(sc, way=way), S, video, holder, ways[way], backed, amap))
 
         # -- several devices in one process, in varying order: each evaluated after the others were set up
         built_before = []
